@@ -499,7 +499,10 @@ class LiveRun:
             self.closed_since.pop(s.get("mid", "1.1"), None)      # data for a closed market re-opens it
             mb = self.book(s.get("mid", "1.1"), s.get("status", "OPEN"), s.get("version", 1), k=s.get("k", 0))
             self.raise_in = {tuple(x): True for x in s.get("raise", [])}
-            self.fl._process_market_books(fevents.MarketBookEvent([mb]))
+            try:
+                self.fl._process_market_books(fevents.MarketBookEvent([mb]))
+            except Exception as e:      # the handler let an exception through
+                self.errors.append(["escaped", "_process_market_books", type(e).__name__, str(e)[:120]])
             self.raise_in = {}
             self.step("book", mid=s.get("mid", "1.1"), status=s.get("status", "OPEN"))
         elif op == "close":
@@ -610,8 +613,14 @@ class LiveRun:
                 for sel in (11, 12):
                     e = mk.blotter.get_exposures(st, (mid, sel, 0))
                     ctx = st._invested.get((mid, sel, 0))
+                    # live trades that have a live bet at the exchange (what a restarted instance can find there)
+                    livex = 0
+                    for o in mk.blotter.strategy_selection_orders(st, sel, 0):
+                        b = self.x.bets.get(o.bet_id) if o.bet_id else None
+                        if b is not None and b["status"] == "EXECUTABLE":
+                            livex += 1
                     out["%s|%s|%s" % (st.name, mid, sel)] = {"win": pence(e["worst_possible_profit_on_win"]), "lose": pence(e["worst_possible_profit_on_lose"]),
-                                                             "ntrades": len(ctx.trades) if ctx else 0, "nlive": len(ctx.live_trades) if ctx else 0,
+                                                             "ntrades": len(ctx.trades) if ctx else 0, "nlive": len(ctx.live_trades) if ctx else 0, "nlivex": livex,
                                                              "norders": len(mk.blotter.strategy_selection_orders(st, sel, 0))}
         return out
 
@@ -624,6 +633,8 @@ class LiveRun:
         self.raise_in = {tuple(x): True for x in (raise_spec or [])}
         try:
             self.fl._process_current_orders(fevents.CurrentOrdersEvent(docs))
+        except Exception as e:      # the handler let an exception through: Flumine.run's loop would die here
+            self.errors.append(["escaped", "_process_current_orders", type(e).__name__, str(e)[:120]])
         finally:
             self.raise_in = {}
         for o_lab, o in list(self.orders.items()):
@@ -802,7 +813,7 @@ class LiveRun:
             self.step("end", quiescent=False)
         finally:
             self.patches.restore()
-        return {"id": self.scn["id"], "steps": self.steps, "errors": self.errors, "calls": [{k: v for k, v in c.items()} for c in self.x.calls]}
+        return {"id": self.scn["id"], "steps": self.steps, "errors": self.errors, "delivered": list(self.delivered), "calls": [{k: v for k, v in c.items()} for c in self.x.calls]}
 
 
 def run_live(scn):
